@@ -173,7 +173,7 @@ NOSTD = ["--no-standard-checks"]
 
 def add(name, harness, **kw):
     kw.setdefault("kit", KIT)
-    kw.setdefault("timeout", 600)
+    kw.setdefault("timeout", 900)
     kw.setdefault("fp_key", kw.get("defs", {}).get("VP_MODE"))
     if any(o.name == name for o in OBLIGATIONS):
         return  # already registered (the quick tier lists come first)
@@ -320,7 +320,7 @@ def two_loops(sizes):
 
 for (sizes, fam, tier) in (((1, 0), "ARR", "quick"), ((0, 1), "ARR", "quick"), ((1, 1), "ARR", "quick"),
                            ((1, 0, 1), "AR", "quick"), ((1, 0, 1), "AA", "quick"), ((0, 1, 0), "AR", "quick"),
-                           ((0, 0), "AA", "quick"), ((0, 0, 1), "AR", "quick"),
+                           ((0, 0), "AA", "quick"), ((0, 0, 1), "AR", "quick"), ((0, 2), "AR", "quick"),
                            ((1, 0, 1), "ARR", "thorough"), ((0, 1, 0), "ARR", "thorough"), ((2, 0, 1), "ARR", "thorough"),
                            ((1, 0, 0, 1), "AR", "thorough"), ((1, 0, 1), "ARA", "thorough"), ((2, 2), "ARR", "thorough"),
                            ((1, 0), "***", "thorough")):
@@ -335,7 +335,7 @@ for (sizes, fam, tier) in (((1, 0), "ARR", "quick"), ((0, 1), "ARR", "quick"), (
         functions=TWO_FUNCS, fp_rules={"block_function": "vp_blockfn"},
         desc="two_level_iterator.c over an index child and per-block children (some EMPTY, status symbolic = some FAILING): after every step valid/key/value == sorted-map cursor over the union (empty blocks skipped both ways, nothing lost/repeated); exactly the held data iterator alive; status() == index status, else held block status, else first non-OK status of released blocks; a block error is never forgotten",
         bounds="blocks with %s entries (concrete keys: the unit never compares keys), symbolic seek targets below/on/between/above every key and separator, symbolic index and block statuses, %s" % ("/".join(str(x) for x in sizes), fam_text(fam)))
-for (sizes, symkeys, tier) in (((1, 0, 1), 0, "quick"), ((0, 1, 0, 1), 0, "quick"), ((1, 0), 1, "quick"), ((1, 0, 1), 1, "thorough"),
+for (sizes, symkeys, tier) in (((2, 0, 2), 0, "quick"), ((0, 2, 0, 1), 0, "quick"), ((1, 0), 1, "quick"), ((1, 0, 1), 0, "thorough"), ((1, 0, 1), 1, "thorough"),
                                ((2, 0, 0, 1), 0, "thorough"), ((2, 2, 2), 1, "thorough")):
     d = two_defs(sizes, 1)
     d["VP_SYMKEYS"] = symkeys
